@@ -31,9 +31,11 @@ Compatible(r, V) == ~(r = "gssvx" /\ "equed" \in V /\ (V \cap {"Rneg", "Cneg"}) 
 BaseCases == UNION { { <<r, V>> : V \in {S \in SUBSET Conds(r) : Cardinality(S) \in {1, 2} /\ Compatible(r, S)} } : r \in Routines }
 \* legal special values of the OTHER arguments must not change the outcome: the same violations with zero right-hand
 \* sides (B, X with no columns), where a routine may be tempted to return before it has tested its arguments
-CtxFlags == {"nrhs0"}
+\* ... and the R / C violations again in the context equed = BOTH, where both tests are made and only one of the arrays is bad
+CtxFlags == {"nrhs0", "eqboth"}
 HasRhs == {"gssv", "gssvx", "gstrs", "gsrfs"}
 Cases == BaseCases \cup { <<c[1], c[2] \cup {"nrhs0"}>> : c \in {b \in BaseCases : b[1] \in HasRhs /\ "Bncol" \notin b[2] /\ "Xncol" \notin b[2]} }
+                   \cup { <<c[1], c[2] \cup {"eqboth"}>> : c \in {b \in BaseCases : b[1] = "gssvx" /\ "equed" \notin b[2] /\ (b[2] \cap {"Rneg", "Cneg"}) # {}} }
 
 SeqSet(q) == {q[i] : i \in 1..Len(q)}
 ArgOK(rec) ==
